@@ -260,6 +260,15 @@ def run_many(ctx, interp, jobs, workers=None, timeout=30):
         futs = {ex.submit(run_mc, ctx, interp, prog, flags, timeout): key for key, prog, flags in jobs}
         for f, key in futs.items():
             res[key] = f.result()
+    # An unexpected exit (abort, loader error, socket already in use, timeout under load) is confirmed by a second,
+    # serial run before anybody draws a conclusion from it: transient infrastructure failures must not become alarms.
+    byk = {key: (prog, flags) for key, prog, flags in jobs}
+    for key, r in list(res.items()):
+        if r["timeout"] or r["rc"] not in (0, 1, 2, 3):
+            prog, flags = byk[key]
+            r2 = run_mc(ctx, interp, prog, flags, timeout * 4)
+            r2["retried_after"] = {"rc": r["rc"], "timeout": r["timeout"]}
+            res[key] = r2
     return res
 
 
